@@ -151,7 +151,12 @@ func (c *Ctx) guard(p *Program, rule, what string, f *ssa.Function, g GuardSpec)
 		}
 		sites = append(sites, res.Sites[a.Name]...)
 	}
+	seenBA := map[string]bool{}
 	for _, a := range g.BinAssumes {
+		if seenBA[a.Name] {
+			continue
+		}
+		seenBA[a.Name] = true
 		if len(res.Sites[a.Name]) == 0 {
 			missing = append(missing, a.Name)
 		}
